@@ -139,7 +139,8 @@ def run_case(period, align_kind, phase_f, lates, sink_lat, add_at):
 def oracle(created, out, end_now, align, P, add_at):
     v = []
     names = sorted(out)
-    base = [n for n in names if add_at[n] == 0][0]
+    base = min(names, key=lambda n: (add_at[n], n))
+    late_base = add_at[base] > 0  # no series at all until some ticks have passed
     a = out[base]
     if not a:
         return [("first_series_produces_samples", {})]
@@ -151,9 +152,12 @@ def oracle(created, out, end_now, align, P, add_at):
     first = a[0]
     if align is not None and (first - align) % P != timedelta(0):
         v.append(("timestamps_aligned_to_align_to", {"first": first.isoformat(), "align_to": align.isoformat()}))
-    if align is None and first != created + P:
+    if align is None and not late_base and first != created + P:
         v.append(("first_timestamp_one_period_after_creation_when_unaligned", {"first": first.isoformat(), "created": created.isoformat()}))
-    if not (created <= first <= created + 2 * P):
+    if align is None and late_base and (first - created) % P != timedelta(0):
+        # the grid of an unaligned resampler is anchored at its creation, whenever the first series is added
+        v.append(("timestamps_on_the_grid_anchored_at_creation_when_unaligned", {"first": first.isoformat(), "created": created.isoformat()}))
+    if not late_base and not (created <= first <= created + 2 * P):
         v.append(("first_timestamp_within_two_periods_of_creation", {"offset_s": (first - created).total_seconds()}))
     for n in names:
         b = out[n]
@@ -310,7 +314,7 @@ def mw_shard(args) -> Acc:
     return acc
 
 
-CLAUSES = ["consecutive_timestamps_one_period_apart", "timestamps_aligned_to_align_to", "first_timestamp_within_two_periods_of_creation",
+CLAUSES = ["timestamps_on_the_grid_anchored_at_creation_when_unaligned", "consecutive_timestamps_one_period_apart", "timestamps_aligned_to_align_to", "first_timestamp_within_two_periods_of_creation",
            "series_resampled_together_share_timestamps", "no_tick_skipped_or_duplicated_for_good",
            "first_timestamp_one_period_after_creation_when_unaligned"]
 
@@ -334,8 +338,8 @@ def deviation_sets(tier):
 def shard(args) -> Acc:
     tier, period, align_kind, phase_f = args
     acc = Acc()
-    add_variants = [{"a": 0}, {"a": 0, "b": 0}, {"a": 0, "b": 3}, {"a": 0, "b": 2, "c": 4}] if tier != "quick" else \
-        [{"a": 0, "b": 0}, {"a": 0, "b": 3}, {"a": 0, "b": 2, "c": 4}]
+    add_variants = [{"a": 0}, {"a": 0, "b": 0}, {"a": 0, "b": 3}, {"a": 0, "b": 2, "c": 4}, {"a": 2, "b": 2}, {"a": 1, "b": 3}] \
+        if tier != "quick" else [{"a": 0, "b": 0}, {"a": 0, "b": 3}, {"a": 0, "b": 2, "c": 4}, {"a": 2, "b": 2}]
     for devs in deviation_sets(tier):
         lates = {k: l for kind, k, l in devs if kind == "late"}
         sinks = {("a", k): l for kind, k, l in devs if kind == "sink"}
@@ -427,7 +431,7 @@ def run(tier: str, seed: int, workers: int):
         "rule": "periods 1 s, 2 s and 7 s (which does not divide a day) x 6 align_to settings (None, epoch, epoch + quarter period, a future instant, "
         "an instant given in a time zone whose UTC offset is not a multiple of the period, an instant in a DST-observing zone with the "
         "run crossing the end of DST) x 7 creation phases relative to the grid (exactly aligned, 400 us after and before a "
-        "grid point, 1/4, 1/3, 1/2, 3/4) x series added before start / after tick k (2-3 series) x every deviation set with at most "
+        "grid point, 1/4, 1/3, 1/2, 3/4) x series added before start / after tick k (2-3 series; in one variant no series exists until tick 2) x every deviation set with at most "
         "1 (quick: plus selected pairs) / 2 (thorough) deviations among: timer wake-up k late by 0.3 / 1 / 1.5 / 3.2 periods, sink call k "
         "taking 0.5 / 1 / 2.5 periods; horizon 10 periods; non-trivial = at least one deviation; plus the real "
         "ComponentMetricsResamplingActor (subscriptions through its request channel, before the first tick or after tick k; outputs read "
